@@ -265,6 +265,24 @@ def m_side(eng, st, callee, a, ty):
     return one(Agg("Side", z3.If(b, BV(1, 64), BV(0, 64)), {}))
 
 
+@model(r"^<D as Distance>::margin_no_header$|^<D as Distance>::margin$")
+def m_margin(eng, st, callee, a, ty):
+    """a margin is an arbitrary f32 (NaN, zero and infinities included) per (vector, normal) pair"""
+    m = eng.fresh("margin", z3.Float32())
+    st.env.setdefault("margins", []).append(m)
+    vid = None
+    for x in a[:2]:
+        v = eng.deref(x) if isinstance(x, Ref) else x
+        while isinstance(v, Ref):
+            v = eng.deref(v)
+        if isinstance(v, Agg) and v.kind == "Cow":
+            v = v.f[0]
+        if isinstance(v, Opaque) and isinstance(v.data, dict) and v.data.get("id") is not None:
+            vid = v.data["id"]
+    st.env.setdefault("margin_items", []).append(vid)
+    return one(m)
+
+
 @model(r"^Side::random::<R>$")
 def m_side_random(eng, st, callee, a, ty):
     b = eng.fresh("rnd", z3.BoolSort())
